@@ -37,8 +37,15 @@ type Engine struct{}
 func init() { simcore.Register(Engine{}) }
 
 func (Engine) Name() string    { return "cl" }
-func (Engine) Props() []string { return []string{"C01", "C03", "C07", "C08"} }
+func (Engine) Props() []string { return []string{"C01", "C03", "C07", "C08", "C09"} }
 func (Engine) Budget(tier, prop string) (int, int) {
+	if prop == "C09" {
+		// the no-lock side of C09 (gaugeledger.go); the lock side is the gauges engine's
+		if tier == "thorough" {
+			return 12000, 600
+		}
+		return 1200, 60
+	}
 	if tier == "thorough" {
 		return 40000, 1700
 	}
@@ -107,6 +114,9 @@ func (Engine) Generate(r *simcore.RNG, tier string, idx int) *simcore.Plan {
 		p.Config["price"] = 0
 	}
 	faults := idx%2 == 1
+	// a quarter of the runs create no-lock gauges with two reward denominations (drawn from its own stream position
+	// only when set, so the other plans are unchanged)
+	twoDenom := idx%4 == 2
 	if idx%4 == 3 {
 		p.Config["spec"] = 60 + int64(idx/4%5)*60 // permille of blocks first executed speculatively on a discarded branch (simchain.Node.Spec)
 	}
@@ -167,6 +177,11 @@ func (Engine) Generate(r *simcore.RNG, tier string, idx int) *simcore.Plan {
 			st.Op = "gauge"
 			g := amountArg(r, 1)
 			st.A = []int64{r.Range(0, 4), r.Range(0, 2), r.Range(0, 2), g[0], g[1], r.Range(0, 1), r.Range(1, 4)}
+			if twoDenom && r.Chance(0.5) {
+				// a second reward denomination; non-perpetual over 2-4 epochs so that a small coin is below one unit per epoch
+				st.A = append(st.A, []int64{1, 1, 2, 3}[r.Intn(4)])
+				st.A[5], st.A[6] = 0, r.Range(2, 4)
+			}
 		case 8:
 			st.Op = "advance"
 			st.A = []int64{r.Range(0, 3), r.Range(1, 5000)}
@@ -449,6 +464,9 @@ func (Engine) Execute(run *simcore.Run) {
 			return
 		}
 		if !w.rewardsTier1(st.Op) && run.Stop() {
+			return
+		}
+		if !w.gaugeLedger(st.Op) && run.Stop() {
 			return
 		}
 		if (i%8 == 7 || i == len(p.Steps)-1) && !w.exitEverybody(st, i) && run.Stop() {
